@@ -51,6 +51,13 @@ THEOREMS = [
 GATE_THEOREMS = ["generic_cluster_gate"]
 SYM_THEOREMS = ["sym_full_iff", "sym_diag_iff", "isConstant_iff"]
 
+TRAV_THEOREMS = ["Qmc.expandLoop_ok", "Qmc.travLoop_ok", "Qmc.mkNav_navSpec", "Qmc.navClose_final",
+                 "Qmc.legGraph_edges_nav", "Qmc.Law.navGraphOK", "Qmc.Law.travOK_of_navGraphOK", "Qmc.Law.travOK",
+                 "Qmc.Law.cfgSpace_travOK", "Qmc.Law.isingSpec_varsPos",
+                 "Qmc.link_mem_legGraph", "Qmc.star_mem_legGraph", "Qmc.Law.nconn_conn", "Qmc.Law.traverse_complete",
+                 "Qmc.Law.freeReps_perm_roots", "Qmc.Law.modelFlips_perm_componentFlips", "Qmc.Law.cfgSpace_hperm",
+                 "Qmc.Law.ising_edgeNotFrozen"]
+
 RULE = ("synthetic valid strings (1..6 spins quick / 1..9 thorough; per world line 0 / exactly 1 / many constant ops, idle "
         "spins, multi-edges, constant two-spin ops, three-spin ops, single-site symmetric and field ops, random rotation in "
         "imaginary time so ops wrap the boundary) installed with FastOps::new_from_ops, for a third of them also after 1..3 "
@@ -89,6 +96,16 @@ def main(ck):
         if ck.lake_build(["QmcProps.C16"]):
             ck.prop = save + "sym"
             ck.audit("QmcProps.C16", ["Qmc.C16." + t for t in SYM_THEOREMS])
+    finally:
+        ck.prop = save
+    # the transliterated traversal `traverse` of the exact model is proved correct for every well-formed skeleton
+    # (never `bad` within its fuel, representatives in pairwise different components): the algorithm for any tables
+    # satisfying NavSpec (ClusterTraverse), the tables of mkNav (ClusterNav), and TravOK itself (LawTravOK)
+    save = ck.prop
+    try:
+        if ck.lake_build(["QmcProofs.LawTravPerm"]):
+            ck.prop = save + "trav"
+            ck.audit("QmcProofs.LawTravPerm", TRAV_THEOREMS)
     finally:
         ck.prop = save
     if ck.cargo_build(BINS):
